@@ -44,7 +44,7 @@ static size_t build_dict(vrng* r, uint8_t* dst, size_t cap, const uint8_t* conte
     }
     {   short nc[64]; unsigned ofMax = vr_chance(r, 1, 2) ? 31 : 10 + vr_u(r, 21); unsigned ofLog = 5 + vr_u(r, 4);
         /* one offset-code table in three has exactly one hole around the highest code the loader requires for this content size */
-        if (vr_chance(r, 1, 3)) { unsigned hb = 0; { size_t v = contentLen + (128u << 10); while (v >>= 1) hb++; } g_holeAt = (int)hb - 1 + (int)vr_u(r, 3); ofMax = V_MAX(ofMax, (unsigned)g_holeAt + 1); if (ofMax > 31) ofMax = 31; ofLog = 6 + vr_u(r, 3); }
+        if (vr_chance(r, 1, 2)) { unsigned hb = 0; { size_t v = contentLen + (128u << 10); while (v >>= 1) hb++; } { static const int dlt[4] = { -1, 0, 0, 1 }; g_holeAt = (int)hb + dlt[vr_u(r, 4)]; } ofMax = V_MAX(ofMax, (unsigned)g_holeAt + 1); if (ofMax > 31) ofMax = 31; ofLog = 6 + vr_u(r, 3); }
         { int const ok = (int)rand_ncount(r, nc, ofMax, ofLog); g_holeAt = -1; if (!ok) return 0; }
         if (0) return 0; for (unsigned s = 0; s <= ofMax; s++) { if (nc[s] == 0) zeroOF = 1; if (nc[s] == -1) ltone = 1; }
         size_t const s1 = FSE_writeNCount(op, 200, nc, ofMax, ofLog); if (FSE_isError(s1)) return 0; op += s1;
